@@ -94,8 +94,10 @@ class Setup:
         else:
             n = np.minimum(n, 4)
         base = gen.rand_meshspec(rng, nd=nd, n_max=2, scale_decades=(-9, 3))
-        self.spec = spec = gen.MeshSpec(base.pmin / base.n * n, base.cell, n, base.dims,
-                                        base.units, base.flip, base.int_corners)
+        # keep the offset measured in edge lengths; integer corners stay integers
+        pmin = base.pmin if base.int_corners else base.pmin / base.n * n
+        self.spec = spec = gen.MeshSpec(pmin, base.cell, n, base.dims, base.units,
+                                        base.flip, base.int_corners)
         if spec.units is None and rng.random() < 0.5:
             spec.units = ["u0", "u1", "u2", "u3"][:nd]
         self.n = tuple(int(k) for k in n)
